@@ -1,25 +1,27 @@
 #!/bin/bash
-# usage: seedtest.sh <ID> <k> [tier]
-# Confirms a seeded change produced by an independent sub-agent (/tmp/seed-<ID>-out/patch<k>.diff):
-#  1. in the agent's scratch worktree: tests pass with the change, demo fails with it and passes without it;
-#  2. applies it to /repo, runs the check of <ID>, undoes it.
-ID="$1"; K="$2"; TIER="${3:-quick}"
+# usage: seedtest.sh <ID> <k> [tier] [check-id ...]
+# Confirms a seeded change produced by an independent sub-agent (/tmp/seed-<ID>-out/patch<k>.diff)
+# entirely inside the agent's scratch worktree /tmp/seed-<ID> (so several can run at once and
+# /repo is never touched):
+#  1. tests pass with the change, demo fails with it and passes without it;
+#  2. the check of <ID> (or the named checks) is run in scratch mode against the changed worktree.
+ID="$1"; K="$2"; TIER="${3:-quick}"; shift; shift; shift
+CHECKS="$@"; [ -z "$CHECKS" ] && CHECKS="$ID"
 OUT=/tmp/seed-$ID-out; WT=/tmp/seed-$ID
 P=$OUT/patch$K.diff
 export GOFLAGS=-mod=mod GOPROXY=off GOSUMDB=off GOTOOLCHAIN=local
 [ -f "$P" ] || { echo "no patch $P"; exit 2; }
-cd $WT && git checkout -q -- . && { git apply "$P" 2>/dev/null || git apply -3 "$P"; } || { echo "patch does not apply in worktree"; exit 2; }
+cd $WT && git checkout -q -- . && { git apply "$P" 2>/dev/null || git apply -3 "$P"; } || { echo "patch does not apply in worktree"; git checkout -q -- .; git reset -q; exit 2; }
 git reset -q 2>/dev/null
 echo "--- repo tests with the change:"
 go test -vet=off -count=1 ./pkg/exec/ ./pkg/io/ ./pkg/runtime/ ./pkg/syntax/... ./pkg/value/ 2>&1 | grep -v "no test files" | tr '\n' ' '; echo
 echo "--- demo with the change (must FAIL):"
 ( cd $OUT/demo$K && timeout 300 bash ./run.sh 2>&1 | tail -3 ); echo "demo exit=$?"
+for c in $CHECKS; do
+  echo "--- check $c $TIER against the changed worktree:"
+  VERIF_SCRATCH_REPO=$WT VERIF_SCRATCH_OUT=/tmp/scr-$ID /verif/check $c $TIER 2>&1 | grep -a -E "^(VIOLATION|KNOWN|BUILD|C[0-9]+ (quick|thorough)|  kind)" | cut -c1-400 | head -8
+done
 git checkout -q -- .
 echo "--- demo without the change (must PASS):"
 ( cd $OUT/demo$K && timeout 300 bash ./run.sh 2>&1 | tail -2 ); echo "demo exit=$?"
-cd /repo && git diff --quiet || { echo "/repo dirty"; exit 2; }
-{ git apply "$P" 2>/dev/null || git apply -3 "$P"; } || { echo "patch does not apply to /repo"; git checkout -q -- .; exit 2; }
-git reset -q 2>/dev/null
-echo "--- check $ID $TIER with the change applied to /repo:"
-/verif/check $ID $TIER 2>&1 | grep -a -E "^(VIOLATION|KNOWN|BUILD|C[0-9]+ (quick|thorough))" | head -6
-git checkout -- . ; git status --short | head -3
+rm -rf /tmp/scr-$ID/bin /tmp/scr-$ID/.run
